@@ -12,6 +12,7 @@ from pyvc.contracts import contract, Contract, Case, LoopSpec
 from .common import *
 from .loops import InsertCopies, DeleteByIds, MoveLoops, CollectSources, RemoveAll, InsertBlock
 from .merge_story import list_same, resolves, none_resolves
+from .roles import found_nodes, enum_start, unique_local
 
 
 class ItemContract(MergeContract):
@@ -84,8 +85,11 @@ class ItemContract(MergeContract):
         return none_resolves(V0, self.story_id(cx))
 
     def S_of(self, ex):
-        v = getattr(ex.st, 'locals_callee', ex.st.locals).get('story')
-        return v.t if isinstance(v, SNode) else None
+        # the addressed story is the result of the first find_child call
+        f = found_nodes(ex.st)
+        if not f or f[0].eq(null):
+            return None
+        return f[0]
 
 
 # ------------------------------------------------------------------ carried items
@@ -115,10 +119,10 @@ class CarriedItems:
 
 class ItemInsertLoop(InsertCopies):
     index_var = 'item_index'
-    def parent(self, cx, lp): return lp.entry.locals['story'].t
+    def parent(self, cx, lp): return found_nodes(lp.entry)[0]
     def carried(self, cx, lp, j): return self.owner.carried(cx, j)
     def ctag(self, cx): return cx.W.lit('item')
-    def idx0(self, cx, lp): return lp.entry.locals[self.index_var].t
+    def idx0(self, cx, lp): return enum_start(lp)
 
 
 def block_clauses(o, cx, ex, S, before, prop_name, removed=None):
@@ -263,7 +267,7 @@ class EAItemReplaceMerge(ReplaceItemsContract):
 # ------------------------------------------------------------------ delete
 class ItemDeleteLoop(DeleteByIds):
     category = 'ItemNotFoundWarning'
-    def parent(self, cx, lp): return lp.entry.locals['story'].t
+    def parent(self, cx, lp): return found_nodes(lp.entry)[0]
     def ctag(self, cx): return cx.W.lit('item')
     def idtag(self, cx): return cx.W.lit('itemID')
     def ident(self, cx, lp, j): return self.owner.ident(cx, j)
@@ -402,11 +406,12 @@ class ItemMoveContract(MoveContract, ItemContract):
     frame = 'story'
 
     def move_parent(self, cx, lp):
-        return lp.entry.locals['story'].t
+        return found_nodes(lp.entry)[0]
 
     def move_target_node(self, cx, lp):
-        v = lp.entry.locals['target_item']
-        return null if isinstance(v, SNone) else v.t
+        # find_child calls before the sources are resolved: the story, then (if there is a target) the target item
+        f = found_nodes(lp.entry)
+        return f[1] if len(f) == 2 else null
 
     def frame_parent_ok(self, cx, P):
         return self.addressed(cx, P)
